@@ -118,6 +118,22 @@ class SQLiteBroker(BaseBroker):
             conn.commit()
             return InvocationId(invocation_id)
 
+    def peek_invocations(self, limit: int) -> list["InvocationId"]:
+        """
+        Return up to ``limit`` invocation ids from the head of the queue without removing them.
+
+        :param int limit: Maximum number of ids to return; values <= 0 return nothing.
+        :return: The first ``limit`` queued invocation ids, oldest first.
+        """
+        if limit <= 0:
+            return []
+        with sqlite_conn(self.sqlite_db_path) as conn:
+            cursor = conn.execute(
+                f"SELECT invocation_id FROM {self.tables.QUEUE} ORDER BY created_at ASC LIMIT ?",
+                (limit,),
+            )
+            return [InvocationId(row[0]) for row in cursor.fetchall()]
+
     def count_invocations(self) -> int:
         """Count the number of invocations in the queue."""
         with sqlite_conn(self.sqlite_db_path) as conn:
